@@ -555,26 +555,34 @@ def comprehension(ex, node, st, kind):
 
     if EM.is_registry_genexp(ex, node, st):
         return EM.registry_batch(ex, node, st)
-    if len(node.generators) != 1:
-        raise Unsupported("comprehension with several generators")
-    gen = node.generators[0]
-    it = ex.iter_source(gen.iter, st)
+    gens = node.generators
+    it = ex.iter_source(gens[0].iter, st)
     pre = ex.flush(st)
     if pre:
         raise Unsupported("raising iteration source inside a comprehension")
     n = it["n"]
-    # ---- the body for an ARBITRARY index i (forall-introduction)
-    i = fresh("ci", I)
+    # ---- the body for ARBITRARY indices (forall-introduction), one per generator
     sc = st.clone()
-    sc.assume(0 <= i, i < n)
     A0 = sc.alloc
-    ex.assign(gen.target, ex.iter_elem(it, i, sc), sc)
-    if isinstance(gen.target, ast.Name) and gen.target.id in ex.c.comp_assume:
-        sc.assume(ex.spec_bool(ex.c.comp_assume[gen.target.id], sc))
-        ex.assumed.add(f"trusted lemma about the elements `{gen.target.id}` of a comprehension in {ex.qualname}: {ex.c.comp_assume[gen.target.id]}")
-    for cond in gen.ifs:
-        c = ex.truthy(ex.eval(cond, sc), sc)
-        sc.assume(c)
+    i = None
+    has_filter = False
+    for gk, gen in enumerate(gens):
+        itk = it if gk == 0 else ex.iter_source(gen.iter, sc)
+        ik = fresh("ci", I)
+        if i is None:
+            i = ik
+        sc.assume(0 <= ik, ik < itk["n"])
+        ex.assign(gen.target, ex.iter_elem(itk, ik, sc), sc)
+        if isinstance(gen.target, ast.Name) and gen.target.id in ex.c.comp_assume:
+            sc.assume(ex.spec_bool(ex.c.comp_assume[gen.target.id], sc))
+            ex.assumed.add(f"trusted lemma about the elements `{gen.target.id}` of a comprehension in {ex.qualname}: {ex.c.comp_assume[gen.target.id]}")
+        for cond in gen.ifs:
+            c = ex.truthy(ex.eval(cond, sc), sc)
+            sc.assume(c)
+            has_filter = True
+    if len(gens) > 1:
+        has_filter = True  # the length of a nested comprehension is not the length of its first source
+    gen = gens[0]
     e = ex.eval(node.elt, sc)
     # potential raises of the body: obligations unless the function's contract allows the exception
     line = getattr(ex, "cur_line", 0)
@@ -594,10 +602,11 @@ def comprehension(ex, node, st, kind):
             s2.assume(cond)
             ex.oblige(s2, "safe", f"{exc}@L{ln - ex.fn.lineno}:{desc} (comprehension element)", z3.BoolVal(False), ln)
     sc.pending = []
-    has_filter = bool(gen.ifs)
     m = fresh("ncomp", I) if has_filter else n
     if has_filter:
-        st.assume(0 <= m, m <= n)
+        st.assume(0 <= m)
+        if len(gens) == 1:
+            st.assume(m <= n)
     if isinstance(e, VRef):
         return comp_nodes(ex, st, sc, e, A0, m, i)
     if isinstance(e, (VInt, VBytes)):
